@@ -60,14 +60,28 @@ def particle_loops(fn, node=None):
         if not cond or not cond.get('kind'):
             continue
         cs = strip(cond)
-        if cs.get('kind') != 'BinaryOperator' or cs['opcode'] not in ('<', '<='):
+        if cs.get('kind') != 'BinaryOperator' or cs['opcode'] not in ('<', '<=', '>', '>='):
             continue
         var = render(cs['inner'][0])
+        descending = cs['opcode'] in ('>', '>=')
         subs = set()
         for e in walk(f['inner'][-1]):
             if e.get('kind') == 'ArraySubscriptExpr' and render(e['inner'][1]) == var and 'reb_particle' in qtype(e):
                 subs.add(render(e['inner'][0]))
         if not subs:
+            continue
+        if descending:
+            # for (i = X-1; i >= 0; i--): the extent is the initial value plus one
+            ini = None
+            for d in walk(f['inner'][0] or {}):
+                if d.get('kind') == 'VarDecl' and d.get('name') == var and 'init' in d:
+                    i0 = [c_ for c_ in d.get('inner', []) if c_.get('kind') not in ('FullComment',)]
+                    ini = render(i0[-1]) if i0 else None
+            if ini is None:
+                continue
+            b = canon(resolve(ini, {k: v for k, v in L.items() if k != var}))
+            b = b[:-2] if b.endswith('-1') else b + '+1'
+            out.append((f, var, b, sorted(subs)))
             continue
         out.append((f, var, canon(resolve(render(cs['inner'][1]), {k: v for k, v in L.items() if k != var})), sorted(subs)))
     return out
